@@ -7,9 +7,12 @@
 // decodes is then queried (containment, bounds, edges, chains, re-encoding).
 //
 // [T] outcome class (value / error) and, for a value, the decoded fields are compared with
-//     decode_T of the Coq model (Model/Codec.v) on the same bytes.
+//
+//	decode_T of the Coq model (Model/Codec.v) on the same bytes.
+//
 // [S] any panic / abort / hang of the implementation, in Decode or in a query on the returned
-//     value, is a violation (c.Violate) with the input as replay.
+//
+//	value, is a violation (c.Violate) with the input as replay.
 package main
 
 import (
@@ -53,21 +56,21 @@ type input struct {
 }
 
 type result struct {
-	Out    string `json:"out"`  // ok | err | panic | abort | hang
-	Msg    string `json:"msg"`  // panic message / error text
-	Term   string `json:"term"` // Coq term of the decoded value (out == ok)
-	Tag    string `json:"tag"`  // sub-class of the decoded value, part of the violation kind (before .use)
-	Sub    string `json:"sub"`  // sub-class of the decoded value, part of the violation kind (after .use.)
-	NV     int64  `json:"nv"`   // Polygon: the decoded numVertices field
-	HasNV  bool   `json:"hasnv"`
-	Sig       string `json:"sig"`       // shape signature (edges, chains) of a decoded loop/polyline/polygon
-	ReuseDiff string `json:"reuseDiff"`
+	Out        string `json:"out"`  // ok | err | panic | abort | hang
+	Msg        string `json:"msg"`  // panic message / error text
+	Term       string `json:"term"` // Coq term of the decoded value (out == ok)
+	Tag        string `json:"tag"`  // sub-class of the decoded value, part of the violation kind (before .use)
+	Sub        string `json:"sub"`  // sub-class of the decoded value, part of the violation kind (after .use.)
+	NV         int64  `json:"nv"`   // Polygon: the decoded numVertices field
+	HasNV      bool   `json:"hasnv"`
+	Sig        string `json:"sig"` // shape signature (edges, chains) of a decoded loop/polyline/polygon
+	ReuseDiff  string `json:"reuseDiff"`
 	ReaderDiff string `json:"readerDiff"` // decoding through a chunked reader differs from the bytes.Reader decode // decoding into a used receiver differs from a fresh decode
-	Note   string `json:"note"` // non-fatal finding of the use phase (re-encoding does not decode)
-	Use    string `json:"use"`  // ok | panic
-	UseAt  string `json:"useAt"`
-	UseMsg string `json:"useMsg"`
-	Millis int64  `json:"ms"`
+	Note       string `json:"note"`       // non-fatal finding of the use phase (re-encoding does not decode)
+	Use        string `json:"use"`        // ok | panic
+	UseAt      string `json:"useAt"`
+	UseMsg     string `json:"useMsg"`
+	Millis     int64  `json:"ms"`
 }
 
 // ---- parent side: one child at a time, one request at a time ----
@@ -472,12 +475,12 @@ func reuseInputs(c *vkit.Collector, rng *vkit.Rng) []input {
 	trunc := func(b []byte) []byte { return b[:len(b)*2/3] }
 	pools := map[cg.Kind][][]byte{}
 	polys := [][]byte{
-		polyBytes(s2.PolygonFromLoops(many)),                                    // 13 loops, compressed
-		polyBytes(s2.PolygonFromLoops(many20)),                                  // 20 loops, lossless
-		polyBytes(s2.PolygonFromLoops([]*s2.Loop{snapped(-20, 40, 2, 10)})),     // one long loop, compressed
-		polyBytes(s2.PolygonFromLoops([]*s2.Loop{snapped(-20, 40, 5, 70)})),     // one loop with an encoded bound
+		polyBytes(s2.PolygonFromLoops(many)),                                                            // 13 loops, compressed
+		polyBytes(s2.PolygonFromLoops(many20)),                                                          // 20 loops, lossless
+		polyBytes(s2.PolygonFromLoops([]*s2.Loop{snapped(-20, 40, 2, 10)})),                             // one long loop, compressed
+		polyBytes(s2.PolygonFromLoops([]*s2.Loop{snapped(-20, 40, 5, 70)})),                             // one loop with an encoded bound
 		polyBytes(s2.PolygonFromLoops([]*s2.Loop{s2.RegularLoop(s2.PointFromCoords(1, 1, 1), 0.2, 9)})), // lossless
-		polyBytes(s2.PolygonFromLoops([]*s2.Loop{snapped(40, -100, 8, 12), snapped(40, -100, 3, 5)})), // shell + hole
+		polyBytes(s2.PolygonFromLoops([]*s2.Loop{snapped(40, -100, 8, 12), snapped(40, -100, 3, 5)})),   // shell + hole
 		polyBytes(s2.FullPolygon()), polyBytes(&s2.Polygon{}), polyBytes(s2.PolygonFromLoops([]*s2.Loop{tri})),
 	}
 	polys = append(polys, trunc(polys[0]), trunc(polys[1]), []byte{9, 9})
@@ -535,9 +538,180 @@ func reuseInputs(c *vkit.Collector, rng *vkit.Rng) []input {
 	return ins
 }
 
+// continuationInputs: "error in part k, well-formed continuation" (seed independent). The part that
+// must be rejected is followed by parts that are well-formed and valid on their own (valid bound
+// Rects, finite unit vertices, valid cell ids), in three layouts: the bad part complete; the bad
+// part cut right after the offending field; cut and followed by a Rect. An error must stick: a
+// decoder that resumes on the continuation returns a half-built value.
+func continuationInputs() []input {
+	f64 := func(x float64) []byte {
+		var t [8]byte
+		binary.LittleEndian.PutUint64(t[:], math.Float64bits(x))
+		return t[:]
+	}
+	u32 := func(n uint32) []byte {
+		var t [4]byte
+		binary.LittleEndian.PutUint32(t[:], n)
+		return t[:]
+	}
+	u64 := func(n uint64) []byte {
+		var t [8]byte
+		binary.LittleEndian.PutUint64(t[:], n)
+		return t[:]
+	}
+	cat := func(parts ...[]byte) []byte {
+		var out []byte
+		for _, p := range parts {
+			out = append(out, p...)
+		}
+		return out
+	}
+	rectB := func(r s2.Rect) []byte { b, _ := cg.Enc(func(w *bytes.Buffer) error { return r.Encode(w) }); return b }
+	full := rectB(s2.FullRect())
+	badRect := cat([]byte{1}, f64(2), f64(3), f64(0), f64(1)) // lat beyond pi/2
+	pts := func(k int) []byte {
+		tri := [][3]float64{{1, 0, 0}, {0, 1, 0}, {0, 0, 1}, {-1, 0, 0}, {0, -1, 0}}
+		var b []byte
+		for i := 0; i < 3; i++ {
+			p := tri[(i+k)%5]
+			b = cat(b, f64(p[0]), f64(p[1]), f64(p[2]))
+		}
+		return b
+	}
+	goodLoop := func(k int) []byte { return cat([]byte{1}, u32(3), pts(k), []byte{0}, u32(uint32(k%2)), full) }
+	type bad struct {
+		name       string
+		whole, cut []byte // the bad loop complete / cut right after the offending field
+	}
+	badLoops := func(k int) []bad {
+		nanPts := cat(f64(math.NaN()), pts(k)[8:])
+		infPts := cat(pts(k)[:16], f64(math.Inf(-1)))
+		return []bad{
+			{"count=2^32-1", cat([]byte{1}, u32(0xFFFFFFFF), pts(k), []byte{0}, u32(0), full), cat([]byte{1}, u32(0xFFFFFFFF))},
+			{"count=limit+1", cat([]byte{1}, u32(cg.MaxVertices+1), pts(k), []byte{0}, u32(0), full), cat([]byte{1}, u32(cg.MaxVertices+1))},
+			{"version=2", cat([]byte{2}, u32(3), pts(k), []byte{0}, u32(0), full), []byte{2}},
+			{"version=0", cat([]byte{0}, u32(3), pts(k), []byte{0}, u32(0), full), []byte{0}},
+			{"NaN coordinate", cat([]byte{1}, u32(3), nanPts, []byte{0}, u32(0), full), cat([]byte{1}, u32(3), f64(math.NaN()))},
+			{"-Inf coordinate", cat([]byte{1}, u32(3), infPts, []byte{0}, u32(0), full), cat([]byte{1}, u32(3), infPts)},
+			{"invalid bound", cat([]byte{1}, u32(3), pts(k), []byte{0}, u32(0), badRect), cat([]byte{1}, u32(3), pts(k), []byte{0}, u32(0), badRect)},
+			{"bound version=3", cat([]byte{1}, u32(3), pts(k), []byte{0}, u32(0), []byte{3}, full[1:]), cat([]byte{1}, u32(3), pts(k), []byte{0}, u32(0), []byte{3})},
+		}
+	}
+	var ins []input
+	add := func(k cg.Kind, data []byte, label string) {
+		ins = append(ins, input{Kind: k, Data: data, Label: cg.KindNames[k] + " continuation: " + label})
+	}
+	// Loop: the bad loop alone, cut, and cut + a Rect (which a forgetful decoder takes for the bound)
+	for _, b := range badLoops(0) {
+		add(cg.KLoop, b.whole, b.name+" (whole)")
+		add(cg.KLoop, b.cut, b.name+" (cut)")
+		add(cg.KLoop, cat(b.cut, full), b.name+" (cut, then a Rect)")
+		add(cg.KLoop, cat(b.cut, goodLoop(1)), b.name+" (cut, then a loop)")
+	}
+	// Polygon, lossless format, 2..4 loops, the bad one in every position
+	for nl := 2; nl <= 4; nl++ {
+		for k := 0; k < nl; k++ {
+			for _, b := range badLoops(k) {
+				for layout, part := range [][]byte{b.whole, b.cut, cat(b.cut, full)} {
+					data := cat([]byte{1, 1, 0}, u32(uint32(nl)))
+					for i := 0; i < nl; i++ {
+						if i == k {
+							data = append(data, part...)
+						} else {
+							data = append(data, goodLoop(i)...)
+						}
+					}
+					data = append(data, full...)
+					add(cg.KPolygon, data, fmt.Sprintf("lossless %d loops, loop %d %s, layout %d", nl, k, b.name, layout))
+				}
+			}
+		}
+		// a bad polygon header followed by well-formed loops
+		body := []byte{}
+		for i := 0; i < nl; i++ {
+			body = append(body, goodLoop(i)...)
+		}
+		add(cg.KPolygon, cat([]byte{1, 1, 0}, u32(cg.MaxLoops+1), body, full), fmt.Sprintf("lossless nloops=limit+1 then %d loops", nl))
+		add(cg.KPolygon, cat([]byte{1, 1, 0}, u32(uint32(nl)), body, badRect), fmt.Sprintf("lossless %d loops, invalid polygon bound", nl))
+	}
+	// Polygon, compressed format: a valid encoding with unsnapped vertices, poisoned in loop k
+	for nl := 2; nl <= 4; nl++ {
+		var loops []*s2.Loop
+		for i := 0; i < nl; i++ {
+			reg := s2.RegularLoop(s2.PointFromCoords(1, float64(i), 0.5), 0.05, 8)
+			vs := make([]s2.Point, 8)
+			for j, v := range reg.Vertices() {
+				vs[j] = s2.CellFromPoint(v).ID().Parent(20).Point()
+				if j == 3 {
+					vs[j] = v // one off-centre vertex per loop
+				}
+			}
+			loops = append(loops, s2.VerifC09LoopRaw(vs, false, i%2, s2.FullRect()))
+		}
+		p := s2.VerifC09PolygonRaw(loops, false, s2.FullRect())
+		enc, _ := cg.Enc(func(w *bytes.Buffer) error { return p.Encode(w) })
+		if len(enc) == 0 || enc[0] != 4 {
+			continue
+		}
+		li, ci := 0, 0
+		coords := cg.CoordOffsets(cg.KPolygon, enc)
+		for _, fld := range cg.Annotate(cg.KPolygon, enc) {
+			switch fld.Name {
+			case "Loop.compressed.nvertices":
+				add(cg.KPolygon, cg.MutateField(enc, fld, cg.MaxVertices+1), fmt.Sprintf("compressed %d loops, loop %d count=limit+1", nl, li))
+				add(cg.KPolygon, cg.MutateField(enc, fld, 1<<63), fmt.Sprintf("compressed %d loops, loop %d count=2^63", nl, li))
+				li++
+			case "offCentreIndex":
+				add(cg.KPolygon, cg.MutateField(enc, fld, 8), fmt.Sprintf("compressed %d loops, off-centre index = nvertices (#%d)", nl, ci))
+				ci++
+			}
+		}
+		for j, off := range coords {
+			if j%3 == 0 {
+				m := append([]byte{}, enc...)
+				binary.LittleEndian.PutUint64(m[off:], math.Float64bits(math.NaN()))
+				add(cg.KPolygon, m, fmt.Sprintf("compressed %d loops, off-centre NaN coordinate (#%d)", nl, j/3))
+			}
+		}
+	}
+	// Polyline: a NaN / Inf coordinate in vertex k, later vertices fine; count beyond the limit
+	for k := 0; k < 3; k++ {
+		body := cat(pts(0), pts(1))
+		m := append([]byte{}, body...)
+		copy(m[24*k:], f64(math.NaN()))
+		add(cg.KPolyline, cat([]byte{1}, u32(6), m), fmt.Sprintf("NaN in vertex %d", k))
+		copy(m[24*k:], f64(math.Inf(1)))
+		add(cg.KPolyline, cat([]byte{1}, u32(6), m), fmt.Sprintf("+Inf in vertex %d", k))
+	}
+	add(cg.KPolyline, cat([]byte{1}, u32(cg.MaxVertices+1), pts(0)), "count=limit+1 then vertices")
+	add(cg.KPolyline, cat([]byte{3}, u32(3), pts(0)), "version=3 then vertices")
+	// CellUnion: an invalid id in position k, valid ids after it; count beyond the limit
+	valid := []uint64{uint64(s2.CellIDFromFace(0)), uint64(s2.CellIDFromFace(3).Children()[1]), uint64(s2.CellIDFromFace(5).ChildBeginAtLevel(30))}
+	for k := 0; k < 3; k++ {
+		for _, badID := range []uint64{0, 0xF45BC0225CDCBC48, 0xFFFFFFFFFFFFFFFF, 0x1000000000000002} {
+			data := cat([]byte{1}, u64(3))
+			for i := 0; i < 3; i++ {
+				if i == k {
+					data = append(data, u64(badID)...)
+				} else {
+					data = append(data, u64(valid[i])...)
+				}
+			}
+			add(cg.KCellUnion, data, fmt.Sprintf("invalid id %#x in position %d", badID, k))
+		}
+	}
+	add(cg.KCellUnion, cat([]byte{1}, u64(cg.MaxCells+1), u64(valid[0]), u64(valid[1])), "count=limit+1 then ids")
+	add(cg.KCellUnion, cat([]byte{2}, u64(2), u64(valid[0]), u64(valid[1])), "version=2 then ids")
+	return ins
+}
+
 func buildInputs(c *vkit.Collector, rng *vkit.Rng, budget int) []input {
 	ins := append(corpusInputs(), regressionInputs()...)
 	ins = append(ins, fieldInputs()...)
+	for _, ci := range continuationInputs() {
+		ins = append(ins, ci)
+		c.Class("error-then-well-formed-continuation")
+	}
 	ins = append(ins, reuseInputs(c, rng)...)
 	for _, e := range cg.LargeEncodings(rng) {
 		ins = append(ins, input{Kind: e.Kind, Data: e.Data, Label: cg.KindNames[e.Kind] + " " + e.Label})
